@@ -947,7 +947,7 @@ def run(ctx, rep, cases=None):
                 "0-3 remaining parameter rows; queries = random dyadic points + points at relative distance 0, ±1e-1..±1e-3 from the "
                 "edges; non-trivial = the expression depends on a fixed variable; distinct = distinct (expression, fixed values, rows)")
     if cases is None:
-        cases = [make_case(ctx, i) for i in range(ctx.scale(280, 3200))]
+        cases = [make_case(ctx, i) for i in range(ctx.scale(240, 3000))]
     spans, lines = [], []
     for cs in cases:
         ls = case_lines(cs)
@@ -983,6 +983,7 @@ def run(ctx, rep, cases=None):
         sr, sm = expand_samples(sreplies[sa:sa + m], meta)
         judge(cs, im, expand(cs, replies[a:a + n]), sr, sm, rep)
     user_volume_stream(ctx, rep)
+    multi_slice_stream(ctx, rep)
     malformed_stream(ctx, rep)
     rebinding_stream(ctx, rep)
     opaque_stream(ctx, rep)
@@ -1083,6 +1084,162 @@ def user_volume_stream(ctx, rep):
         a_after, _ = attempt(lambda: flat(torch.as_tensor(D.volume(kfull))))
         if a_after is not None and not close_lists(a_after, ref, 1e-7):
             rep.fail(f"calling D changed its user-set volume from {ref} to {a_after}", desc)
+
+
+def multi_slice_stream(ctx, rep):
+    """slices at a factor that lives in a space with several variables (a nested product of intervals, a disc
+    times an interval): `(G x F)(**values)` with values for ALL variables of F, keywords in every order, values
+    given as floats / lists / tensors.  The returned domain must be  G(values) x Point(F's space, values in the
+    order of F's space): compared with that slice written by hand (oracle) and with `sliceContains` (model)."""
+    tp = common.use_repo()
+    import torch
+    rng = ctx.rng
+    cases, lines = [], []
+    for i in range(ctx.scale(36, 320)):
+        shape = rng.choice(["II", "II", "III", "CI", "IC"])
+        scal = rng.sample(["t", "D", "s"], 3)
+        if shape in ("II", "III"):
+            fvars = scal[:2] if shape == "II" else scal
+            par = [p_ for p_ in scal if p_ not in fvars][:1]
+            gvar = rng.choice(["x", "x", "y", "z"])
+        else:
+            fvars = ["x", scal[0]] if shape == "CI" else [scal[0], "x"]
+            par = [scal[1]]
+            gvar = rng.choice(["y", "z"])
+        gen0 = Gen17(rng, params=[], p_dep=0)
+        leaves = [gen0.prim(v_) for v_ in fvars]                      # F: constant shapes, one per variable
+        F = leaves[0]
+        for lf in leaves[1:]:
+            F = Node("prod", None, [], [F, lf]) if rng.random() < 0.5 or F.kind != "prod" else Node("prod", None, [], [F.kids[0], Node("prod", None, [], [F.kids[1], lf])])
+        scalar_f = [v_ for v_ in fvars if geomgen.DIM[v_] == 1]
+        f_first = rng.random() < 0.3
+        gg = Gen17(rng, params=par + ([] if f_first else scalar_f), p_dep=0.6, allow_rotate=(gvar == "x"))
+        G = gg.solid(rng.choice([1, 2]), gvar)
+        node = Node("prod", None, [], [F, G] if f_first else [G, F])
+        # values: inside the leaves (so that the slice can be compared with the original), sometimes outside
+        sigma = {}
+        for lf in leaves:
+            if lf.kind == "interval":
+                lo, hi = lf.pfs[0].eval({})[0], lf.pfs[1].eval({})[0]
+                sigma[lf.var] = [lo + (hi - lo) * Fr(rng.randint(1, 7), 8)]
+            else:
+                ctr = lf.pfs[0].eval({}) if lf.kind in ("circle", "sphere") else [sum(p_.eval({})[j] for p_ in lf.pfs[1:]) / 2 for j in range(2)]
+                sigma[lf.var] = [Fr(round(a * 32), 32) for a in ctr]
+        fix_par = par and rng.random() < 0.5
+        if fix_par:
+            sigma[par[0]] = [Fr(rng.randint(0, 16), 16)]
+        rest = [] if fix_par else par
+        prow = [{p_: [Fr(rng.randint(0, 16), 16)] for p_ in rest} for _ in range(rng.choice([1, 2]) if rest else 1)]
+        order = list(sigma)
+        rng.shuffle(order)
+        gdeps = set(G.free_vars())
+        how = {}
+        for v_ in order:
+            how[v_] = "tensor" if v_ in gdeps else rng.choice(["tensor", "float", "list", "tensor0"] if geomgen.DIM[v_] == 1 else ["tensor", "list"])
+        rows = []
+        for r_ in range(ctx.scale(24, 36)):
+            j = r_ % len(prow)
+            env = dict(sigma, **prow[j])
+            pt = {}
+            try:
+                near = []
+                c05.near_points(G, env, rng, near)
+            except Exception:
+                near = []
+            near = [q_ for q_ in near if len(q_) == geomgen.DIM[gvar]]
+            pt[gvar] = [f32(a) for a in rng.choice(near)] if near and rng.random() < 0.7 else [Fr(rng.randint(-4 * 32, 4 * 32), 32) for _ in range(geomgen.DIM[gvar])]
+            kind = rng.choice(["on", "on", "on", "swap", "off"])
+            vals = {v_: list(sigma[v_]) for v_ in fvars}
+            if kind == "swap" and len(scalar_f) >= 2:
+                a_, b_ = rng.sample(scalar_f, 2)
+                vals[a_], vals[b_] = vals[b_], vals[a_]
+            elif kind == "swap":
+                vals["x"] = [vals["x"][1], vals["x"][0]]
+            elif kind == "off":
+                v_ = rng.choice(fvars)
+                vals[v_] = [vals[v_][0] + rng.choice([Fr(1, 16), Fr(-1, 16)])] + vals[v_][1:]
+            pt.update(vals)
+            rows.append((frs(pt), j))
+        cs = dict(node=node, F=F, G=G, fvars=fvars, sigma=sigma, order=order, how=how, rest=rest, prow=[frs(p_) for p_ in prow], rows=rows,
+                  f_first=f_first, shape=shape)
+        cases.append(cs)
+    multi_slice_judge(cases, rep)
+
+
+def multi_slice_judge(cases, rep):
+    tp = common.use_repo()
+    import torch
+    lines = [f"slices {TOL} {PTOL} {cs['node'].kids[0].tokens()} {cs['node'].kids[1].tokens()} {env_tokens(cs['sigma'])} {rows_tokens(cs['rows'], cs['prow'])}"
+             for cs in cases]
+    replies = common.run_driver("C17", lines)
+
+    def value(v_, val, h):
+        fl = [float(a) for a in val]
+        if h == "float":
+            return fl[0]
+        if h == "list":
+            return fl if len(fl) > 1 else fl[0:1]
+        if h == "tensor0":
+            return torch.tensor(fl[0])
+        return torch.tensor([fl], dtype=torch.float32)
+
+    for cs, rl in zip(cases, replies):
+        node, sigma = cs["node"], cs["sigma"]
+        rep.count("multi-slice:" + cs["shape"] + (":fixed-factor-first" if cs["f_first"] else ""))
+        for h in cs["how"].values():
+            rep.count("multi-slice-value:" + h)
+        kw = {v_: value(v_, sigma[v_], cs["how"][v_]) for v_ in cs["order"]}
+        desc = dict(stream="multi-slice", expression=node.tokens(), dom=node.describe(), keyword_order=cs["order"], given_as=cs["how"],
+                    sigma=frs(sigma), prow=cs["prow"], fixed_factor_variables=cs["fvars"], rest=cs["rest"], f_first=cs["f_first"], shape=cs["shape"],
+                    rows=cs["rows"][:12])
+        call = "D(" + ", ".join(f"{v_}={[float(a) for a in sigma[v_]]}" for v_ in cs["order"]) + ")"
+        D, e0 = attempt(lambda: to_tp(node, tp))
+        if e0:
+            rep.count("multi-slice:not-built")
+            continue
+        E, e1 = attempt(lambda: D(**kw))
+        if e1:
+            if not e1.startswith("timeout"):
+                rep.fail(f"{call} raised {e1}", desc)
+            continue
+        # by hand: the kept factor with the values substituted x Point(space of F in ITS variable order, the values in that order)
+        def hand():
+            Gs = to_tp(subst(cs["G"], sigma), tp)
+            flatvals = [float(a) for v_ in cs["F"].vars() for a in sigma[v_]]
+            P = tp.domains.Point(cs["F"].space(tp), flatvals)
+            return P * Gs if cs["f_first"] else Gs * P
+        S, e2 = attempt(hand)
+        if e2:
+            rep.count("multi-slice:hand-written-not-built")
+            continue
+        if sorted(E.necessary_variables) != sorted(S.necessary_variables):
+            rep.fail(f"{call}.necessary_variables = {sorted(E.necessary_variables)}, the slice written by hand declares {sorted(S.necessary_variables)}", desc)
+        fv_model = vset(rl.split(";")[0].split()[3])
+        if sorted(E.necessary_variables) != fv_model:
+            rep.disagree("drivers/C17.lean slices: necessary_variables (multi-variable factor)", desc, sorted(E.necessary_variables), fv_model)
+        pts = mk_points(tp, torch, node, [pt for pt, _ in cs["rows"]])
+        prm = mk_params(tp, torch, cs["rest"], [cs["prow"][j] for _, j in cs["rows"]])
+        got, e3 = attempt(E._contains, pts, prm)
+        want, e4 = attempt(S._contains, pts, prm)
+        if e3 and not e3.startswith("timeout"):
+            rep.fail(f"{call}._contains raised {e3}" + ("" if e4 else " (the slice written by hand answers)"), desc)
+        if e3 or e4:
+            continue
+        got = [bool(b) for b in got.reshape(-1).tolist()]
+        want = [bool(b) for b in want.reshape(-1).tolist()]
+        for (pt, j), g_, w_, r_ in zip(cs["rows"], got, want, rl.split(";")):
+            c1_, _, _, _, mga = r_.split()
+            if mga == "none" or Fr(mga) <= MARGIN:
+                rep.count("multi-slice-within-margin(skipped)")
+                continue
+            rep.count("multi-slice-decided")
+            if g_ != w_:
+                rep.fail(f"{call} answers {g_} at the point {unfrs(pt) and {k_: [float(Fr(a)) for a in v_] for k_, v_ in pt.items()}}; the slice written by hand "
+                         f"(kept factor with the values substituted x Point over {cs['F'].vars()} = {[float(a) for v_ in cs['F'].vars() for a in sigma[v_]]}) answers {w_}",
+                         dict(desc, point=pt))
+                break
+            if c1_ != "none" and g_ != (c1_ == "1"):
+                rep.disagree("drivers/C17.lean slices: membership (multi-variable factor)", dict(desc, point=pt), g_, r_)
 
 
 def malformed_stream(ctx, rep):
@@ -1223,6 +1380,17 @@ def replay(ctx, obj):
     inp = (obj.get("failing_input") or obj.get("first"))["input"]
     if inp.get("stream") == "user-volume":
         user_volume_stream(ctx, rep)
+        return common.finish(ctx, rep, lean)
+    if inp.get("stream") == "multi-slice":
+        node = geomgen.from_json(inp["dom"])
+        F, G = (node.kids[0], node.kids[1]) if inp["f_first"] else (node.kids[1], node.kids[0])
+        rows = [tuple(r) for r in inp["rows"]]
+        if "point" in inp:
+            rows = [(inp["point"], 0)] + rows
+        cs = dict(node=node, F=F, G=G, fvars=inp["fixed_factor_variables"], sigma=unfrs(inp["sigma"]), order=inp["keyword_order"],
+                  how=inp["given_as"], rest=inp["rest"], prow=inp["prow"], rows=rows, f_first=inp["f_first"], shape=inp["shape"])
+        rep.case(dict(dom=inp["dom"]), True)
+        multi_slice_judge([cs], rep)
         return common.finish(ctx, rep, lean)
     if inp.get("stream") == "malformed":
         malformed_stream(ctx, rep)
